@@ -876,6 +876,11 @@ class Interp:
                     return None
                 if e.func.attr in ("__init__", "__post_init__", "__init_subclass__"):
                     return None
+                if e.func.attr == "__new__" and len(args) == 1 and isinstance(args[0], ClassRef) and not kwargs:
+                    # object.__new__(cls): a fresh, uninitialised instance of that class
+                    o = SObj(args[0].info, {}, lazy=True)
+                    o.born = self.ctx
+                    return o
                 self.outside(f"super().{e.func.attr} not found", e)
             return self.call_function(target, selfv, args, kwargs, e)
         if isinstance(e.func, ast.Name) and e.func.id == "cast" and len(e.args) == 2 and not env.lookup("cast")[0]:
